@@ -29,8 +29,11 @@ class JwkRule(memrules.MemRule):
 
     def on_call(self, it, st, name, args, node):
         memrules.MemRule.on_call(self, it, st, name, args, node)
-        if name == 'jwks_item_add':
-            st.trace.append(('api', 'jwks_item_add', args[1], [args[0]], node_loc(node)))
+        if name in ('list_add_tail', 'list_add'):
+            # the append event is the list operation itself (whatever function it is written in): item = container of the node
+            node_ref = args[0]
+            item = Ref(node_ref.loc, '') if isinstance(node_ref, Ref) else node_ref
+            st.trace.append(('api', 'jwks_item_add', item, [args[1]], node_loc(node)))
 
     def on_return(self, it, st, fname, rv):
         if fname != 'jwk_process_one':
